@@ -631,6 +631,14 @@ def dump_one(f: TextIO, data: IOData) -> None:
     print(FMT_ENERGY.format(data.energy or np.nan, data.extra.get("virial_ratio", np.nan)), file=f)
 
     # Write MOSPIN extension section (optional)
-    if data.extra.get("mo_spin") is not None:
+    mo_spin = data.extra.get("mo_spin")
+    if mo_spin is not None:
+        if len(mo_spin) != data.mo.norb:
+            # The stored labels describe other orbitals than the ones written,
+            # e.g. after a conversion from restricted to unrestricted orbitals.
+            if data.mo.kind == "restricted":
+                mo_spin = np.full(data.mo.norb, 3)
+            else:
+                mo_spin = np.array([1] * data.mo.norba + [2] * data.mo.norbb)
         print(" $MOSPIN $END\n\n", file=f)
-        _dump_helper_section(f, data.extra["mo_spin"], FMT_SPIN, 0, STEP_SPIN, 40)
+        _dump_helper_section(f, mo_spin, FMT_SPIN, 0, STEP_SPIN, 40)
